@@ -283,6 +283,18 @@ func (w *world) judgeCorrupted(sub string, ps pairSpec, r *pairResult, desc stri
 	w.judgeProof(sub, false, ps.In.verifier(), accts[ps.Out.Acct].peerId, r.Side[1], r.Received[1], desc, rc)
 }
 
+// judgeSplit: the very last frame of the exchange (the accepting side's final ack) is the only one whose sender has
+// already decided when it is written; a manipulation of any earlier frame must end the same way on both sides ("an
+// error or deadline on both sides, never success"). A duplicate of the frame before the final ack is inserted exactly
+// where the final ack is expected: same position. last = index of the final frame in direction in->out.
+func (w *world) judgeSplit(m *mut, last int, r *pairResult, desc string, rc any) {
+	finalFrame := m.Dir == 1 && (m.K == last || m.Kind == "dup" && m.K == last-1)
+	if r.Side[0].OK != r.Side[1].OK && !finalFrame && r.Side[0].Returned && r.Side[1].Returned {
+		w.c.Violation(fmt.Sprintf("b:verdicts-differ-after-manipulated-frame:dir=%d,k=%d,%s:outgoing=%v,incoming=%v", m.Dir, m.K, m.Kind, okStr(r.Side[0].OK), okStr(r.Side[1].OK)),
+			fmt.Sprintf("%s: outgoing=%s incoming=%s although the manipulated frame is not the final ack", desc, r.Side[0].verdict(), r.Side[1].verdict()), rc)
+	}
+}
+
 func (w *world) subB(g *guards) {
 	c := w.c
 	caseNo := -1
@@ -328,16 +340,7 @@ func (w *world) subB(g *guards) {
 						g.bCases++
 						desc := fmt.Sprintf("base %s, %s, chunking %s", base.name, m, ps.Chunk)
 						w.judgeCorrupted("b", ps, r, desc, rc)
-						// the very last frame of the exchange (the accepting side's final ack) is the only one whose sender
-						// has already decided when it is written; a manipulation of any earlier frame must end the same way
-						// on both sides ("an error or deadline on both sides, never success")
-						// (a duplicate of the frame before it is inserted exactly where the final ack is expected: same position)
-						last := len(rec.Frames[1]) - 1
-						finalFrame := m.Dir == 1 && (k == last || m.Kind == "dup" && k == last-1)
-						if r.Side[0].OK != r.Side[1].OK && !finalFrame && r.Side[0].Returned && r.Side[1].Returned {
-							c.Violation(fmt.Sprintf("b:verdicts-differ-after-manipulated-frame:dir=%d,k=%d,%s:outgoing=%v,incoming=%v", m.Dir, m.K, m.Kind, okStr(r.Side[0].OK), okStr(r.Side[1].OK)),
-								fmt.Sprintf("%s: outgoing=%s incoming=%s although the manipulated frame is not the final ack", desc, r.Side[0].verdict(), r.Side[1].verdict()), rc)
-						}
+						w.judgeSplit(m, len(rec.Frames[1])-1, r, desc, rc)
 						if r.Side[0].OK != r.Side[1].OK {
 							g.bSplit++
 							if g.bSplit == 1 {
